@@ -6,7 +6,7 @@ from ..propbase import deductive
 from ..report import Report
 
 R = "markdown_it.ruler.Ruler."
-FUNCS = [R + m for m in ("__find__", "enable", "disable", "enableOnly", "at", "before", "after", "push")]
+FUNCS = [R + m for m in ("__find__", "enable", "disable", "enableOnly", "at", "before", "after", "push", "__compile__", "getRules")]
 
 
 def run(tier, seed):
@@ -24,11 +24,15 @@ def run(tier, seed):
     rep.explanation = (
         "Deductive: every Ruler mutator is proved (pyvc, z3) to leave `__cache__ is None` on every exit, normal and KeyError, "
         "and to have exactly the set semantics of DESIGN.md 3.1 (quantified posts over the rule records); __find__ returns the first match. "
-        "Induction over the call history is the composition step (not machine-checked). "
-        "getRules/__compile__ (cache == Filter) are covered by the bounded history monitor in this tier.")
+        "__compile__ is proved to publish exactly cache[c] == Filter(rules, c) for every chain name c (loops over the rule records, the alt lists and - in arbitrary order - the set of chain names; "
+        "lemma by induction: no selected rule => empty chain), and getRules, under the representation invariant RI (cache None or == Filter), returns Filter(rules, chainName) and keeps RI. "
+        "Induction over the call history is the composition step (not machine-checked): RI holds after __init__ (cache None), every mutator re-establishes it by invalidation, getRules preserves it - so what parsing "
+        "applies on every chain equals the enabled rules filtered by chain membership after any history.")
     rep.trusted_base = ["pyvc (vf/), z3 5.1.0, cvc5 1.0.3 on z3 unknowns", "Python semantics as listed in DESIGN.md 2.4",
                         "Rule records have value semantics (a Rule is only created as an argument of insert/append)"]
     rep.assumptions = ["Find(rules, n, name) is declared by its characterisation (least index or -1)",
                        "options.get('alt', []) yields an immutable list value (compared by identity)",
-                       "induction over finite call histories (composition, not machine-checked)"]
+                       "induction over finite call histories (composition, not machine-checked)",
+                       "Rule.alt lists are immutable values with membership Mem(l, c) <=> exists j < len(l). l[j] == c; `for chain in <set>` visits each element once in an arbitrary order",
+                       "Ruler.get_active_rules / get_all_rules (list comprehensions) are monitored by the bounded history check only"]
     return rep
